@@ -303,6 +303,12 @@ class Facts:
                 for it in im["items"]:
                     if it["name"] == "drop":
                         self.drop_impls[im["self_ty"]] = it["def"]
+        self.fmt_impls = defaultdict(list)
+        for im in self.impls:
+            if im.get("trait") in ("std::fmt::Display", "std::fmt::Debug") and not im.get("exp"):
+                for it in im["items"]:
+                    if it["name"] == "fmt":
+                        self.fmt_impls[(im["trait"], im["self_ty"])].append(it["def"])
         self.closures_by_root = defaultdict(list)
         for p, b in self.bodies.items():
             if b.root:
@@ -382,13 +388,28 @@ class Facts:
             h = have(res)
             if h:
                 out.append(h)
-        if not out and c.get("trait"):
-            # CHA over impls in the analysed crates
+        if not out and c.get("trait") and (not res or rk == "virtual"):
+            # CHA over impls in the analysed crates (only for calls rustc could not resolve to one item)
             for m in self.impl_of_trait_item.get(d, []):
                 if m in self.bodies:
                     out.append(m)
             if d in self.bodies:  # default method body
                 out.append(d)
+        # formatting machinery: Argument::new_display::<T> / new_debug::<T> / ToString::to_string call <T as Display/Debug>::fmt
+        tail = d.rsplit("::", 1)[-1]
+        if tail in ("new_display", "new_debug") and "fmt::rt::Argument" in d or (tail == "to_string" and c.get("trait", "").endswith("ToString")):
+            tr = "std::fmt::Debug" if tail == "new_debug" else "std::fmt::Display"
+            ty = (c.get("targs") or [""])[-1 if tail != "to_string" else 0]
+            ty = ty.lstrip("&").replace("mut ", "")
+            # Display/Debug of &T, Arc<T>, Box<T>, Rc<T> forward to T
+            for _ in range(4):
+                ty = ty.lstrip("&")
+                m0 = re.match(r"^(?:std::sync::Arc|std::boxed::Box|std::rc::Rc)<(.*)>$", ty)
+                if not m0:
+                    break
+                ty = m0.group(1)
+            for m in self.fmt_impls.get((tr, ty), ()):
+                out.append(m)
         # Fn::call / FnMut::call_mut / FnOnce::call_once on a dyn Fn object or a closure
         if c.get("trait", "").endswith(("ops::Fn", "ops::FnMut", "ops::FnOnce")):
             self_ty = c["targs"][0] if c["targs"] else ""
@@ -399,7 +420,7 @@ class Facts:
                         out.append(s)
                 out.append("EXTERNAL(%s)" % sig)
         # closures / fn items passed as arguments to non-local callees are assumed to be invoked
-        if not c.get("local"):
+        if not c.get("local") and not d.endswith(("Box::<T>::new", "Arc::<T>::new", "Rc::<T>::new", "Box::<T>::pin", "Mutex::<T>::new", "RwLock::<T>::new")):
             for defs in t.get("arg_defs", []):
                 for dd in defs:
                     h = have(dd)
